@@ -54,7 +54,7 @@ def step(draw, default):
 
 @st.composite
 def cases(draw):
-    spec = draw(gen.tree_specs(min_depth=1, max_depth=3, max_shape=5, defaults=(0, 0, 0, 2)))
+    spec = draw(gen.tree_specs(min_depth=1, max_depth=3, max_shape=5, defaults=(0, 0, 0, 2), auth="any"))
     init = draw(st.sampled_from(["ref", "fiber", "uncompressed", "yaml", "deepcopy", "random", "populated"]))
     return {"spec": spec, "init": init, "seed": draw(st.integers(0, 1000)),
             "ops": draw(st.lists(step(spec["default"]), min_size=1, max_size=20))}
@@ -232,7 +232,9 @@ def do_transform(m, o, rec):
         return None, ids, shape          # rank ids become lists: continue on the operand
     if k == "t_updateCoords":
         S = shape[depth]
-        r = t.updateCoords(lambda i, c, p: S - 1 - c, depth=depth)
+        # (a rank without a declared shape needs new_shape: the docstring's precondition)
+        kw = {} if t.getShape(authoritative=True) is not None else {"new_shape": S}
+        r = t.updateCoords(lambda i, c, p: S - 1 - c, depth=depth, **kw)
         verify(r, "Tensor.updateCoords result")
         return None, ids, shape          # (Fiber.updateCoords at depth>0 handles only the first sub-fiber)
     if k == "t_updatePayloads":
@@ -371,7 +373,7 @@ PARTS = [Part("history", cases(), check, n_quick=3000, n_thorough=15000)]
 def coverage_warnings(rec):
     n = max(1, rec.evaluations)
     out = []
-    for k, floor in (("history:populate-removal", 0.035), ("history:chain-insert", 0.05), ("history:mutated-transform-result", 0.2)):
+    for k, floor in (("history:populate-removal", 0.025), ("history:chain-insert", 0.05), ("history:mutated-transform-result", 0.2)):
         if rec.classes.get(k, 0) / n < floor:
             out.append(f"{k} only {rec.classes.get(k, 0)}/{n}")
     return out
